@@ -28,7 +28,7 @@ fn revoke_reactor_routes_every_trigger(dead: bool)
     let target = if dead { Entity::m_new(live.index(), live.generation() + 1) } else { live };
 
     let token = RevokeToken{
-        reactors: Arc::from(vec![ReactorType::EntityMutation(target, TypeId::of::<Ka>()), ReactorType::Broadcast(TypeId::of::<Ea>())].as_slice()),
+        reactors: { let a: Arc<[ReactorType; 2]> = Arc::new([ReactorType::EntityMutation(target, TypeId::of::<Ka>()), ReactorType::Broadcast(TypeId::of::<Ea>())]); a },   // constant-size allocation (Arc::from(slice) allocates a symbolic size)
         id: me,
     };
     let wp = &mut world as *mut World;
@@ -122,4 +122,87 @@ fn react_commands_insert_only_on_existing_entity()
     kani::cover!(dead, "dead id");
     kani::cover!(!dead, "live entity");
     std::mem::forget(captured); std::mem::forget(world);
+}
+
+/// C06 / C07 / C18, minimal form: a token whose FIRST trigger names an entity that no longer exists and whose second
+/// trigger is type-wide - the type-wide registration must still be revoked (the walk does not stop at the dead entity).
+#[kani::proof]
+#[kani::stub(core::any::TypeId::of, crate::vh::stub_typeid_of)]
+#[kani::stub(<core::any::TypeId as crate::vh::PEq>::eq, crate::vh::stub_typeid_eq)]
+#[kani::unwind(3)]
+fn revoke_reactor_continues_past_dead_entity()
+{
+    let mut world = World::new();
+    let mut cache = ReactCache::default();
+    let me = SystemCommand(ent(41));
+    let neighbour = SystemCommand(ent(42));
+    crate::react::react_cache::verif_h::put_broadcast::<Ea>(&mut cache, ReactorHandle::Persistent(me), ReactorHandle::Persistent(neighbour));
+    let gone = Entity::m_new(0, 7);      // no such entity in the world
+    let token = RevokeToken{
+        reactors: { let a: Arc<[ReactorType; 2]> = Arc::new([ReactorType::EntityMutation(gone, TypeId::of::<Ka>()), ReactorType::Broadcast(TypeId::of::<Ea>())]); a },
+        id: me,
+    };
+    let wp = &mut world as *mut World;
+    revoke_reactor(In(token), ResMut::m_new(&mut cache), qry(wp));
+    assert!(crate::react::react_cache::verif_h::broadcast_entries::<Ea>(&cache) == 1
+        && crate::react::react_cache::verif_h::broadcast_first::<Ea>(&cache) == Some(neighbour),
+        "C06/C18: the trigger named after a dead entity's trigger is still revoked; the neighbour stays");
+    kani::cover!(true, "end of harness reached");
+    std::mem::forget(world); std::mem::forget(cache);
+}
+
+//-------------------------------------------------------------------------------------------------------------------
+// one-off reactors (C15)
+//-------------------------------------------------------------------------------------------------------------------
+pub struct OnceLog(pub u8);
+impl bevy::ecs::system::Resource for OnceLog {}
+
+/// C15: the wrapper built by `ReactCommands::once` runs the user's reactor on its first invocation only, despawns its
+/// own entity and revokes its own token (no registration of it remains); a second invocation (another of its
+/// triggers firing in the same tree) does nothing.
+#[kani::proof]
+#[kani::stub(core::any::TypeId::of, crate::vh::stub_typeid_of)]
+#[kani::stub(<core::any::TypeId as crate::vh::PEq>::eq, crate::vh::stub_typeid_eq)]
+#[kani::unwind(4)]
+fn once_reactor_runs_once_then_vanishes()
+{
+    let mut world = World::new();
+    world.m_apply_via_fn_pointer();
+    world.m_drop_table::<bevy::model::cell::LeakAll>();      // what the despawn drops is not the subject here
+    world.insert_resource(ReactCache::default());
+    world.insert_resource(crate::ecs::auto_despawn::verif_h::mk_despawner());
+    world.insert_resource(OnceLog(0));
+    let mut captured: Vec<bevy::world::InsertCommand<SystemCommandStorage>> = Vec::with_capacity(2);
+    world.m_capture(&mut captured);
+    let wp = &mut world as *mut World;
+    let token =
+    {
+        let mut rc = ReactCommands{ commands: cmds(wp) };
+        rc.once(broadcast::<Ea>(), |mut log: bevy::ecs::system::ResMut<OnceLog>| { log.0 += 1; })
+    };
+    world.m_capture_end();
+    assert!(captured.len() == 1 && world.m_queued() == 2, "C15: once() queues the registration and the storage of the wrapper");
+    let reactor_entity = captured[0].entity;
+    assert!(token.id == SystemCommand(reactor_entity), "C15: the token names the wrapper's own entity");
+    // the registration command is set aside (not applied); the table is written as registration would have left it
+    let _registration = world.m_pop_command();
+    world.flush_entities();
+    {
+        let mut cache = world.resource_mut::<ReactCache>();
+        crate::react::react_cache::verif_h::put_broadcast::<Ea>(&mut cache, ReactorHandle::Persistent(SystemCommand(reactor_entity)), ReactorHandle::Persistent(SystemCommand(ent(42))));
+    }
+    let mut storage = captured.pop().unwrap().bundle;
+    let mut callback = storage.take().unwrap();
+
+    callback.run(&mut world, SystemCommandCleanup::default());
+    assert!(world.resource::<OnceLog>().0 == 1, "C15: the reactor ran on the first trigger");
+    assert!(!world.m_alive(reactor_entity), "C15: afterwards its entity is gone");
+    assert!(crate::react::react_cache::verif_h::broadcast_entries::<Ea>(world.resource::<ReactCache>()) == 1
+        && crate::react::react_cache::verif_h::broadcast_first::<Ea>(world.resource::<ReactCache>()) == Some(SystemCommand(ent(42))),
+        "C15: none of its triggers remains registered; other reactors keep theirs");
+
+    callback.run(&mut world, SystemCommandCleanup::default());
+    assert!(world.resource::<OnceLog>().0 == 1, "C15: a second trigger in the same tree does not run it again");
+    kani::cover!(true, "end of harness reached");
+    std::mem::forget(callback); std::mem::forget(world);
 }
